@@ -222,7 +222,8 @@ def decode_and_force(msg_type: int, body: bytes, negotiated) -> tuple:
     exa.reset_global_state()
     phase = 'decode'
     try:
-        message = Message.unpack(msg_type, body, negotiated)
+        # Connection.reader_async hands the body up as a memoryview: decoders that only work on bytes must show here
+        message = Message.unpack(msg_type, memoryview(bytes(body)), negotiated)
         if msg_type == 3 and not isinstance(message, Notification):
             return ('violation', 'decode:notification-not-yielded', repr(message)[:200])
         phase = 'render'
